@@ -1,5 +1,6 @@
 import PoxModel.Proofs.Framing
 import PoxModel.Proofs.Contain
+import PoxModel.Proofs.FramingIO
 /-! # C02 — message framing is independent of how the byte stream is segmented
 
 Property theorems only (helper lemmas live in `Proofs/Framing.lean`).  `ctlFeed U 8` is the controller-side
@@ -91,5 +92,68 @@ example : Hdr hello := ⟨by decide, by decide, by decide, by decide⟩
 example : Hdr echo := ⟨by decide, by decide, by decide, by decide⟩
 example : ([[1, 0, 0], [8, 0, 0, 0, 7, 1, 2], [0, 12, 0, 0, 0, 9, 0xde, 0xad, 0xbe, 0xef]].foldl
             (ctlFeed sliceU 8) init).delivered = [hello, echo] := by decide
+
+/-! ## Handlers that raise, and the end of the stream
+
+`ctlFeedH U H 8` / `swFeedH U H` are the two read paths with the outcome `H m` of the handler of every delivered
+message as an input (returned / raised a Python exception), `connEnd` is the read that finds the end of the stream
+(`recv` returned `b''` or raised).  "Delivers exactly that sequence, once each" holds for EVERY `H`, i.e. also for the
+messages that follow one whose handler raised; and when the stream ends, every complete message among the bytes the
+reads have handed out has been delivered. -/
+
+/-- **ctl_handler_outcome**: whatever the handlers do (return or raise), the controller-side read path is the `ctlFeed`
+of `ctl_framing` / `ctl_prefix`. -/
+theorem ctl_handler_outcome (U : Unpack Msg) (H : Msg → HOut) : ctlFeedH U H 8 = ctlFeed U 8 := ctlFeedH_eq U H 8
+
+/-- **sw_handler_outcome**: the same on the switch side (`except Exception: _error_handler(ERR_EXCEPTION)`; the bytes of
+the message were consumed before the handler ran and are not consumed again). -/
+theorem sw_handler_outcome (U : Unpack Msg) (H : Msg → HOut) : swFeedH U H = swFeed U := swFeedH_eq U H
+
+/-- Controller side, whole stream, handlers of any of the messages raising. -/
+theorem ctl_framing_handlers (U : Unpack Msg) (H : Msg → HOut) (ms : List (Bytes × Msg)) (chunks : List Bytes)
+    (hwf : ∀ p ∈ ms, WF U p.1 p.2) (hseg : chunks.flatten = (ms.map (·.1)).flatten) :
+    let r := chunks.foldl (ctlFeedH U H 8) init
+    r.delivered = ms.map (·.2) ∧ r.buf = [] ∧ r.st = .alive := by
+  rw [ctl_handler_outcome]; exact ctl_framing U ms chunks hwf hseg
+
+/-- Switch side, whole stream, handlers of any of the messages raising. -/
+theorem sw_framing_handlers (U : Unpack Msg) (H : Msg → HOut) (ms : List (Bytes × Msg)) (chunks : List Bytes)
+    (hwf : ∀ p ∈ ms, SWF U p.1 p.2) (hseg : chunks.flatten = (ms.map (·.1)).flatten) :
+    let r := chunks.foldl (swFeedH U H) init
+    r.delivered = ms.map (·.2) ∧ r.buf = [] ∧ r.st = .alive := by
+  rw [sw_handler_outcome]; exact sw_framing U ms chunks hwf hseg
+
+/-- **ctl_eof**: the peer ends the stream after the bytes `chunks.flatten` (any prefix of a well-formed stream, cut into
+reads in any way, handlers of any of the messages raising).  When the connection is closed, exactly the complete
+messages among those bytes have been delivered, in order, once each; what is left is a strict prefix of the next
+message. -/
+theorem ctl_eof (U : Unpack Msg) (H : Msg → HOut) (ms : List (Bytes × Msg)) (chunks : List Bytes) (rest : Bytes)
+    (hwf : ∀ p ∈ ms, WF U p.1 p.2) (hseg : chunks.flatten ++ rest = (ms.map (·.1)).flatten) :
+    let r := connEnd (chunks.foldl (ctlFeedH U H 8) init)
+    ∃ done rem tl, ms = done ++ rem ∧ r.delivered = done.map (·.2) ∧ r.st = .closed ∧
+      chunks.flatten = (done.map (·.1)).flatten ++ tl ∧
+      (tl = [] ∨ ∃ e m rem' y, rem = (e, m) :: rem' ∧ e = tl ++ y ∧ y ≠ []) := by
+  rw [ctl_handler_outcome]
+  obtain ⟨done, rem, tl, h1, h2, _, h4, h5, h6⟩ := ctl_prefix U ms chunks rest hwf hseg
+  exact ⟨done, rem, tl, h1, by rw [connEnd_delivered]; exact h2, connEnd_closed _ h4, h5, h6⟩
+
+/-- **sw_eof**: the same on the switch side (`IOWorker._do_recv`: an empty `recv` or a socket error closes the worker). -/
+theorem sw_eof (U : Unpack Msg) (H : Msg → HOut) (ms : List (Bytes × Msg)) (chunks : List Bytes) (rest : Bytes)
+    (hwf : ∀ p ∈ ms, SWF U p.1 p.2) (hseg : chunks.flatten ++ rest = (ms.map (·.1)).flatten) :
+    let r := connEnd (chunks.foldl (swFeedH U H) init)
+    ∃ done rem tl, ms = done ++ rem ∧ r.delivered = done.map (·.2) ∧ r.st = .closed ∧
+      chunks.flatten = (done.map (·.1)).flatten ++ tl ∧
+      (tl = [] ∨ ∃ e m rem' y, rem = (e, m) :: rem' ∧ e = tl ++ y ∧ y ≠ []) := by
+  rw [sw_handler_outcome]
+  obtain ⟨done, rem, tl, h1, h2, _, h4, h5, h6⟩ := sw_prefix U ms chunks rest hwf hseg
+  exact ⟨done, rem, tl, h1, by rw [connEnd_delivered]; exact h2, connEnd_closed _ h4, h5, h6⟩
+
+/-- non-vacuity: the handler of the HELLO raises, the stream is cut inside both headers, and the peer hangs up three
+    bytes into a third message: both complete messages were delivered on either side, the connection is closed. -/
+example : (connEnd ([[1, 0, 0], [8, 0, 0, 0, 7, 1, 2], [0, 12, 0, 0, 0, 9, 0xde, 0xad, 0xbe, 0xef, 1, 0, 0]].foldl
+            (ctlFeedH sliceU (raisesOn [hello]) 8) init)).delivered = [hello, echo] := by decide
+example : (connEnd ([[1, 0, 0], [8, 0, 0, 0, 7, 1, 2], [0, 12, 0, 0, 0, 9, 0xde, 0xad, 0xbe, 0xef, 1, 0, 0]].foldl
+            (swFeedH sliceU (raisesOn [hello])) init)).st = .closed := by decide
+example : raisesOn [hello] hello = .raised ∧ raisesOn [hello] echo = .returned := by decide
 
 end Pox.C02
